@@ -100,7 +100,7 @@ struct World {
     }
 };
 
-enum Kind { NEW, ADD, ADD4, MERGE, ASSIGN, MOVECTOR, POP, CLEAR, DESTROY, AWAIT, AWAITSELF, AWAITSELF1, CSP, CSPNEST, DESTROYUNW, TPEEK, NEWT, TADD, TMOVE, TTOVOID, TPOP, TDESTROY, TAWAIT };
+enum Kind { NEW, ADD, ADD4, MERGE, ASSIGN, MOVECTOR, POP, CLEAR, DESTROY, AWAIT, AWAITSELF, AWAITSELF1, CSP, CSPNEST, CSPTHROW, DESTROYUNW, TPEEK, NEWT, TADD, TMOVE, TTOVOID, TPOP, TDESTROY, TAWAIT };
 struct OpDef {
     Kind k;
     int a, b;
@@ -128,6 +128,7 @@ static void build_ops(int nv) {
         g_ops.push_back({DESTROYUNW, i, -1, S("destroy-during-stack-unwinding", i)});
         g_ops.push_back({CSP, i, -1, S("create_suspend_point(clear)", i)});
         g_ops.push_back({CSPNEST, i, -1, S("create_suspend_point(nested-queue(clear))", i)});
+        g_ops.push_back({CSPTHROW, i, -1, S("create_suspend_point(clear-then-throw)", i)});
         for (int j = 0; j < nv; j++)
             if (i != j) {
                 g_ops.push_back({MERGE, i, j, S("merge", i, j)});
@@ -161,6 +162,7 @@ static bool enabled(const World &w, const OpDef &o, int maxh) {
         case AWAITSELF1:
         case CSP:
         case CSPNEST:
+        case CSPTHROW:
         case DESTROYUNW: return w.v[o.a].has_value();
         case TPEEK: return w.t.has_value();
         case NEWT: return !w.t && w.live() < maxh;
@@ -223,6 +225,19 @@ static void apply(World &w, const OpDef &o) {
             // what clear() readies is collected back out of the ready queue into a new suspend point and kept
             SP got = cocls::coro_queue::create_suspend_point([&] { w.v[o.a]->clear(); });
             *w.v[o.a] << std::move(got);
+            break;
+        }
+        case CSPTHROW: {
+            // the callback leaves by an exception after it has readied coroutines: no suspend point is produced; what was readied
+            // is still resumed (at once in normal code, by the running queue session otherwise) and the thread's mode is unchanged
+            try {
+                SP got = cocls::coro_queue::create_suspend_point([&] {
+                    w.v[o.a]->clear();
+                    throw 0;
+                });
+                *w.v[o.a] << std::move(got);
+            } catch (int) {
+            }
             break;
         }
         case CSPNEST: {
